@@ -379,7 +379,7 @@ theorem readRecord_writeRecord {F : Type} (ff : FloatFmt F) (hff : ff.Lawful) (r
         · exact (writeScore_tabfree ff hff _).1
         · exact hs2
         · exact hp2)
-    unfold readRecord
+    unfold readRecord tryNew
     rw [hb]
     have h1 := parsePosition_printNat _ hwf.start_pos.1 hwf.start_pos.2
     have h2 := parsePosition_printNat _ hwf.end_pos.1 hwf.end_pos.2
@@ -387,5 +387,62 @@ theorem readRecord_writeRecord {F : Type} (ff : FloatFmt F) (hff : ff.Lawful) (r
     have h5 := parseAttrs_writeAttrs r.attrs hwf.canonical hwf.tags_nodup hk
     simp only [bind, Except.bind, pure, Except.pure, h1, h2, h3, hs1, hp1, h5,
       collectAttrs_nodup _ hwf.tags_nodup]
+
+end Noodles.Gtf
+
+/-! ## no panic: the only `.panic` of the GTF reader model is the `unwrap` in `readRecord` -/
+
+namespace Noodles.Gtf
+open Noodles.Gff
+
+theorem parsePosition_ne_panic (b : Bytes) : parsePosition b ≠ .error .panic := by
+  unfold parsePosition
+  split
+  · split <;> simp
+  · simp
+
+theorem parseScore_ne_panic {F : Type} (ff : FloatFmt F) (b : Bytes) :
+    transpose (parseScore ff b) ≠ .error .panic := by
+  unfold parseScore
+  split
+  · simp [transpose]
+  · split <;> simp [transpose]
+
+theorem parsePhase_ne_panic (b : Bytes) : transpose (parsePhase b) ≠ .error .panic := by
+  unfold parsePhase
+  repeat' split
+  all_goals simp [transpose]
+
+theorem bounds_ne_panic (line : Bytes) : bounds line ≠ .error .panic := by
+  unfold bounds
+  split <;> simp
+
+theorem unescapeAux_ne_panic (e : Bool) (s : Bytes) : unescapeAux e s ≠ .error .panic := by
+  fun_induction unescapeAux e s <;> simp_all
+
+theorem escapeDecode_ne_panic (s : Bytes) : escapeDecode s ≠ .error .panic := by
+  unfold escapeDecode
+  split
+  · exact unescapeAux_ne_panic _ _
+  · simp
+
+theorem parseField_ne_panic (s : Bytes) : parseField s ≠ .error .panic := by
+  unfold parseField
+  repeat' split
+  all_goals simp
+
+theorem attrPairs_ne_panic (fuel : Nat) (s : Bytes) : attrPairs fuel s ≠ .error .panic := by
+  fun_induction attrPairs fuel s <;> simp_all [parseField_ne_panic, escapeDecode_ne_panic]
+  all_goals (intro h; subst h; first | exact absurd ‹_› (parseField_ne_panic _) | exact absurd ‹_› (escapeDecode_ne_panic _))
+
+theorem parseAttrs_ne_panic (s : Bytes) : parseAttrs s ≠ .error .panic := by
+  unfold parseAttrs
+  split
+  · simp
+  · rename_i e h
+    intro h'
+    injection h' with h'
+    subst h'
+    exact attrPairs_ne_panic _ _ h
 
 end Noodles.Gtf
